@@ -433,10 +433,14 @@ fn run_case(work: &Path, ops: &[Op], sel: &VarSel, rng: &mut Rng) -> CaseOut {
     let ents = show_ents(&h.ents);
     let mut notes = vec![];
     let mut panics = vec![];
+    let t_obs = std::time::Instant::now();
     let final_obs = observe_real(&dir, top, &idx).unwrap_or_else(|e| {
         panics.push("intact".into());
         e
     });
+    // a replay of a few hundred bytes that takes this long is allocating a garbage frame length
+    // (mis-framed log): the history itself is the failing input, its variants would only cost time
+    let slow_replay = t_obs.elapsed().as_millis() > 100 * (top as u128 + 1) && h.files.iter().map(|f| f.1.len()).sum::<usize>() < 20_000;
     let real_hist = format!("ok {} {}", h.opobs, show_files(&h.files));
     let mut lines = vec![
         format!("hist fixed {} {}", ents, h.model_ops),
@@ -467,7 +471,7 @@ fn run_case(work: &Path, ops: &[Op], sel: &VarSel, rng: &mut Rng) -> CaseOut {
         hist_nontrivial,
         recs_err: None,
     };
-    let vars = choose_vars(sel, &h.files, rng);
+    let vars = if slow_replay { notes.push(format!("variants skipped, replay of the intact image is slow: `{}`", h.ops_txt)); vec![] } else { choose_vars(sel, &h.files, rng) };
     if !vars.is_empty() {
         // records per file as the implementation reported them
         let mut frecs: Vec<Vec<(u64, usize)>> = vec![];
@@ -838,7 +842,9 @@ fn main() {
                 rep.count(&format!("op:{}", &op[..1]));
             }
             for n in &o.notes {
-                rep.notes.push(n.clone());
+                if rep.notes.len() < 12 {
+                    rep.notes.push(n.clone());
+                }
             }
             // the history
             rep.case(&o.ops_txt, o.hist_nontrivial);
